@@ -157,6 +157,36 @@ def check_doc(doc, models, v):
         if p not in paths and want:
             v("operations_differ", "%s: %s" % (p, sorted(want)), "path absent", extra_ops="none", missing_ops=",".join(sorted(want)))
     schemas = doc.get("components", {}).get("schemas", {})
+
+    def schema_key(ref_holder):
+        # follow a requestBody / response object to the schema it names (through components/requestBodies when it is a reference)
+        if not isinstance(ref_holder, dict):
+            return None
+        r = ref_holder.get("$ref")
+        if isinstance(r, str) and "/requestBodies/" in r:
+            ref_holder = doc.get("components", {}).get("requestBodies", {}).get(r.rsplit("/", 1)[1], {})
+        sch = (((ref_holder.get("content") or {}).get("application/json") or {}).get("schema") or {}) if isinstance(ref_holder, dict) else {}
+        r = sch.get("$ref") if isinstance(sch, dict) else None
+        return r.rsplit("/", 1)[1] if isinstance(r, str) and "/components/schemas/" in r else None
+
+    # "describe that same model": what a model's operations take and answer with (request body, success responses) is that model's schema
+    for m in models:
+        item = "%s/{%s}" % (m["route"], m["pk_name"])
+        for path, op in ((m["route"], "post"), (item, "get")):
+            o = (paths.get(path) or {}).get(op)
+            if not isinstance(o, dict):
+                continue
+            named = []
+            if op == "post" and "requestBody" in o:
+                named.append(("requestBody", schema_key(o["requestBody"])))
+            for code, resp in (o.get("responses") or {}).items():
+                if str(code).startswith("2") and isinstance(resp, dict) and resp.get("content"):
+                    named.append(("response", schema_key(resp)))
+            for where, key in named:
+                sch = schemas.get(key) if key else None
+                if key is None or not isinstance(sch, dict) or set(sch.get("properties", {})) != set(m["columns"]):
+                    v("operation_describes_another_model", "%s %s %s: the schema of %s %s" % (op, path, where, m["name"], sorted(m["columns"])),
+                      "%s %s" % (key, sorted(sch.get("properties", {})) if isinstance(sch, dict) else "undefined"), op=op, where=where, names_error_schema=key == "ServerError", schema_defined=isinstance(sch, dict))
     for m in models:
         # the schema describing the model: the one the model's operations refer to
         referred = {r.rsplit("/", 1)[1] for w, r in refs(paths) if "/components/schemas/" in r and r.rsplit("/", 1)[1] != "ServerError" and (m["route"] + "/" in w + "/" or ("~1".join(m["route"].split("/")) in w))}
